@@ -363,15 +363,20 @@ class SRetShape(Sym):
     def _vc_isinstance(self, cls):
         classes = cls if isinstance(cls, tuple) else (cls,)
         names = {getattr(c, "__name__", "") for c in classes}
+        wants = []
         if names & {"UsageExecNode", "SUxnCtor"}:
-            return self._decide("single")
+            wants.append("single")
         if tuple in classes:
-            return self._decide("tuple")
+            wants.append("tuple")
         if list in classes:
-            return self._decide("list")
+            wants.append("list")
         if dict in classes:
-            return self._decide("dict")
-        raise Unsupported("isinstance of return_uxns against an unexpected class")
+            wants.append("dict")
+        if not wants:
+            raise Unsupported("isinstance of return_uxns against an unexpected class")
+        # isinstance(x, (A, B)) is true for an A and for a B
+        self._decide(wants[0])
+        return self.kind in wants
 
     # single
     @property
